@@ -63,14 +63,19 @@ type loopDrv struct {
 	ln      net.Listener
 	fatal   string
 	started time.Time
+	budget  int // callbacks whose program may still run during the current script line
 }
 
 func (d *loopDrv) cb(id int) func(error, int) {
 	return func(err error, n int) {
 		d.depth++
 		d.events = append(d.events, fmt.Sprintf("cb%d:%d:%d:d%d", id, loopErrClass(err), n, d.depth))
-		for _, a := range d.progs[id] {
-			d.exec(strings.Fields(a))
+		run := d.budget > 0
+		d.budget--
+		if run {
+			for _, a := range d.progs[id] {
+				d.exec(strings.Fields(a))
+			}
 		}
 		d.depth--
 	}
@@ -80,8 +85,12 @@ func (d *loopDrv) tcb(id int) func() {
 	return func() {
 		d.depth++
 		d.events = append(d.events, fmt.Sprintf("cb%d:0:0:d%d", id, d.depth))
-		for _, a := range d.progs[id] {
-			d.exec(strings.Fields(a))
+		run := d.budget > 0
+		d.budget--
+		if run {
+			for _, a := range d.progs[id] {
+				d.exec(strings.Fields(a))
+			}
 		}
 		d.depth--
 	}
@@ -156,6 +165,7 @@ func (d *loopDrv) exec(a []string) {
 		n := atoi(a[3])
 		id := atoi(a[4])
 		b := make([]byte, n)
+		d.events = append(d.events, fmt.Sprintf("S%d:%s:%s:%d", id, a[2], a[1], n))
 		switch a[1] {
 		case "read":
 			o.f.AsyncRead(b, d.cb(id))
@@ -167,10 +177,12 @@ func (d *loopDrv) exec(a []string) {
 			o.f.AsyncWriteAll(b, d.cb(id))
 		}
 	case "cancel":
+		d.events = append(d.events, "X"+a[1])
 		d.objs[atoi(a[1])].f.Cancel()
+		d.events = append(d.events, "x"+a[1])
 	case "close":
 		err := d.objs[atoi(a[1])].f.Close()
-		d.events = append(d.events, fmt.Sprintf("close:%d", loopErrClass(err)))
+		d.events = append(d.events, fmt.Sprintf("C%s:%d", a[1], loopErrClass(err)))
 	case "sched":
 		t := d.timers[atoi(a[1])]
 		dur := time.Duration(atoi(a[3])) * time.Millisecond
@@ -180,15 +192,16 @@ func (d *loopDrv) exec(a []string) {
 		} else {
 			err = t.ScheduleRepeating(dur, d.tcb(atoi(a[4])))
 		}
-		d.events = append(d.events, fmt.Sprintf("sched:%d", loopErrClass(err)))
+		d.events = append(d.events, fmt.Sprintf("T%s:%s:%s:%s:%d", a[1], a[2], a[3], a[4], loopErrClass(err)))
 	case "tcancel":
 		err := d.timers[atoi(a[1])].Cancel()
-		d.events = append(d.events, fmt.Sprintf("tcancel:%d", loopErrClass(err)))
+		d.events = append(d.events, fmt.Sprintf("tc%s:%d", a[1], loopErrClass(err)))
 	case "tclose":
 		err := d.timers[atoi(a[1])].Close()
-		d.events = append(d.events, fmt.Sprintf("tclose:%d", loopErrClass(err)))
+		d.events = append(d.events, fmt.Sprintf("tx%s:%d", a[1], loopErrClass(err)))
 	case "post":
 		id := atoi(a[1])
+		d.events = append(d.events, "P"+a[1])
 		_ = d.ioc.Post(d.tcb(id))
 	default:
 		panic("unknown action " + a[0])
@@ -266,6 +279,7 @@ func runLoop(c *Case) []string {
 		return fmt.Sprintf("%s%spending=%d disp=%d ev=%s tm=%d", e, extra, d.ioc.Pending(), d.ioc.Dispatched, strings.TrimSuffix(sb.String(), ","), d.ioc.VerifPendingTimers())
 	}
 	return runOps(c, func(op string, a []string) string {
+		d.budget = 300
 		switch op {
 		case "obj":
 			d.newObj(atoi(a[0]), a[1])
